@@ -151,6 +151,29 @@ fn word_write_run<W: SimWord, A: WordWrite<Word = W, Error = std::io::Error> + W
                     }
                     continue;
                 }
+                Op11::Pos => {
+                    // (direct wrap only) whatever happened before, a reported word position is
+                    // the byte position of the stream in words, rounded down or up
+                    ctx.step(tags(s, "word_pos_after_error"));
+                    match guard(|| a.word_pos()) {
+                        Ok(Ok(p)) => {
+                            let c = sh.borrow().cursor;
+                            ctx.probe("c11.word_pos_after_write_error");
+                            if p != c / nb as u64 && p != c.div_ceil(nb as u64) {
+                                return ctx.fail(
+                                    "C11.word_pos",
+                                    format!(
+                                        "op #{} word_pos() = {} after a failed write_word, but the byte stream is at byte {} ({} whole words transferred, word size {})",
+                                        i, p, c, c / nb as u64, nb
+                                    ),
+                                );
+                            }
+                        }
+                        Ok(Err(_)) => {}
+                        Err(p) => return ctx.fail("C11.panic", format!("word_pos after an error panicked: {}", p)),
+                    }
+                    continue;
+                }
                 _ => continue,
             }
         }
@@ -532,6 +555,27 @@ fn word_read_run<W: SimWord, A: WordRead<Word = W, Error = std::io::Error> + Wor
                     // not asserted, but must not panic
                     if let Err(p) = guard(|| a.read_word()) {
                         return ctx.fail("C11.panic", format!("read_word after an error panicked: {}", p));
+                    }
+                    continue;
+                }
+                Op11::Pos if s.wrap == Wrap::Direct => {
+                    ctx.step(tags(s, "word_pos_after_error"));
+                    match guard(|| a.word_pos()) {
+                        Ok(Ok(p)) => {
+                            let c = sh.borrow().cursor;
+                            ctx.probe("c11.word_pos_after_read_error");
+                            if p != c / nb as u64 && p != c.div_ceil(nb as u64) {
+                                return ctx.fail(
+                                    "C11.word_pos",
+                                    format!(
+                                        "op #{} word_pos() = {} after a failed read_word, but the byte stream is at byte {} ({} whole words transferred, word size {})",
+                                        i, p, c, c / nb as u64, nb
+                                    ),
+                                );
+                            }
+                        }
+                        Ok(Err(_)) => {}
+                        Err(p) => return ctx.fail("C11.panic", format!("word_pos after an error panicked: {}", p)),
                     }
                     continue;
                 }
@@ -1099,6 +1143,8 @@ impl Family for C11 {
 
     fn required_probes(_t: Tier) -> Vec<&'static str> {
         vec![
+            "c11.word_pos_after_write_error",
+            "c11.word_pos_after_read_error",
             "c11.word_pos_above_2^32",
             "c11.read_err_surfaced",
             "c11.partial_trailing_word_err",
